@@ -163,11 +163,38 @@ def run_shard(shard):
             for arrays in ARRAYS:
                 for aoh in AOH:
                     check(st, ldoc, rdoc, ltext, rtext, shapes, arrays, aoh)
+        if li == 0:
+            notation_family(st)
         if li == lo:
             st.sample({"lhs": ltext, "rhs": corpus.render(neighbours(lspec)[0])
                        if neighbours(lspec) else ltext, "arrays": "position",
                        "aoh": "position"})
     return st
+
+
+NOTATION_PAIRS = [
+    ('l: [beta, "x y", 1000, 2.50, true]\n',
+     "l: [\"beta\", 'x y', 1_000, 2.5, True]\n"),
+    ("[a, b, a]\n", '- "a"\n- \'b\'\n- a\n'),
+    ("k: |\n  one line\nl: [one, two]\n",
+     'k: "one line\\n"\nl: ["two", \'one\']\n'),
+    ("- {id: 1, v: x}\n- {id: 2, v: y}\n",
+     '- {"id": 2, "v": \'y\'}\n- {"id": 1, "v": "x"}\n'),
+    ("s: [0x10, 0o7, 1e3]\n", "s: [16, 7, 1000.0]\n"),
+]
+
+
+def notation_family(st):
+    """The same data written in two notations (plain / quoted / block
+    scalars, digit grouping, other bases): loaded as the command loads them
+    these are nodes of different Python types, yet equal data - so every
+    mode's verdict is "no difference" wherever the data oracle says so."""
+    for ltext, rtext in NOTATION_PAIRS:
+        ldoc, rdoc = corpus.load(ltext), corpus.load(rtext)
+        for arrays in ARRAYS:
+            for aoh in AOH:
+                check(st, ldoc, rdoc, ltext, rtext, ("notation", "notation"),
+                      arrays, aoh)
 
 
 # ---------------------------------------------------------------- data oracle
